@@ -36,6 +36,20 @@ impl Decimal {
         Decimal::new(coef, self.exp.max(other.exp))
     }
 
+    /// Like [`Decimal::lcm`], but `None` when the result does not fit the representation.
+    pub fn checked_lcm(&self, other: &Decimal) -> Option<Decimal> {
+        if self.coef == 0 || other.coef == 0 {
+            return Some(Decimal::new(0, 0));
+        }
+        let a = (self.coef as u64)
+            .checked_mul(10u64.checked_pow(other.exp.saturating_sub(self.exp))?)?;
+        let b = (other.coef as u64)
+            .checked_mul(10u64.checked_pow(self.exp.saturating_sub(other.exp))?)?;
+        let coef = (a / gcd64(a, b)).checked_mul(b)?;
+        let coef = u32::try_from(coef).ok()?;
+        Some(Decimal::new(coef, self.exp.max(other.exp)))
+    }
+
     pub fn to_f64(&self) -> f64 {
         self.coef as f64 / 10.0f64.powi(self.exp as i32)
     }
@@ -61,6 +75,14 @@ impl TryFrom<f64> for Decimal {
             ));
         }
         Ok(Decimal::new(value as u32, exp))
+    }
+}
+
+fn gcd64(a: u64, b: u64) -> u64 {
+    if b == 0 {
+        a
+    } else {
+        gcd64(b, a % b)
     }
 }
 
